@@ -66,7 +66,7 @@ func (Prop) Size(tier string) int {
 	if tier == "thorough" {
 		return 600000
 	}
-	return 20000
+	return 15000
 }
 // ProcessesPerWorker: process state is part of what C15 quantifies over; several shorter-lived
 // worker processes give more "first operations of a process".
